@@ -161,6 +161,8 @@ type hsRunner struct {
 	ca   *testCA
 	res  []*DialResult
 	keys []string
+	backendCert []tls.Certificate
+	proxyCert   []tls.Certificate
 }
 
 // ---------------------------------------------------------------------------
@@ -205,17 +207,21 @@ func (ca *testCA) leaf(host string) tls.Certificate {
 	return tls.Certificate{Certificate: [][]byte{der}, PrivateKey: priv}
 }
 
-// serverTLS wraps c for a node that presents the given kind of certificate for host.
-func (h *hsRunner) serverTLS(c net.Conn, kind, host string, sni *string) *tls.Conn {
-	var cert tls.Certificate
+// mint creates, on the root goroutine before any node runs, the certificate a
+// node will present (crypto/rand is a deterministic stream shared by all
+// goroutines: nodes must not draw from it concurrently with the client).
+func (h *hsRunner) mint(kind, host string) tls.Certificate {
 	switch kind {
 	case "otherhost":
-		cert = h.ca.leaf("other.example")
+		return h.ca.leaf("other.example")
 	case "untrusted":
-		cert = newCA("rogue CA").leaf(host)
-	default:
-		cert = h.ca.leaf(host)
+		return newCA("rogue CA").leaf(host)
 	}
+	return h.ca.leaf(host)
+}
+
+// serverTLS wraps c for a node that presents cert.
+func (h *hsRunner) serverTLS(c net.Conn, cert tls.Certificate, sni *string) *tls.Conn {
 	cfg := &tls.Config{Certificates: []tls.Certificate{cert}, GetConfigForClient: func(chi *tls.ClientHelloInfo) (*tls.Config, error) {
 		*sni = chi.ServerName
 		return nil, nil
@@ -305,6 +311,15 @@ func (h *hsRunner) registerNodes(i int) {
 	d := &h.scn.HS.Dials[i]
 	res := h.res[i]
 	baddr := backendAddr(d)
+	var bc, pc tls.Certificate
+	if d.Backend.TLS {
+		bc = h.mint(d.Backend.Cert, hostOnly(baddr))
+	}
+	if d.Proxy != nil && d.Proxy.Kind == "https" {
+		pc = h.mint(d.Proxy.Cert, hostOnly(proxyAddr(d)))
+	}
+	h.backendCert = append(h.backendCert, bc)
+	h.proxyCert = append(h.proxyCert, pc)
 	h.net.Handle(baddr, func(c *SimConn) { h.serveBackend(i, c, &res.Backend) })
 	if d.Proxy != nil {
 		h.net.Handle(proxyAddr(d), func(c *SimConn) { h.serveProxy(i, c) })
@@ -458,7 +473,7 @@ func (h *hsRunner) serveBackend(i int, sc *SimConn, log *BackendLog) {
 	log.SrvConn = sc
 	var c net.Conn = firstBytes{sc, &log.RawFirst}
 	if b.TLS {
-		tc := h.serverTLS(c, b.Cert, hostOnly(backendAddr(d)), &log.SNI)
+		tc := h.serverTLS(c, h.backendCert[i], &log.SNI)
 		if err := tc.Handshake(); err != nil {
 			log.TLSErr = err.Error()
 			sc.Close()
@@ -609,7 +624,7 @@ func (h *hsRunner) serveProxy(i int, sc *SimConn) {
 	log := &h.res[i].Proxy
 	var c net.Conn = firstBytes{sc, &log.RawFirst}
 	if p.Kind == "https" {
-		tc := h.serverTLS(c, p.Cert, hostOnly(proxyAddr(d)), &log.SNI)
+		tc := h.serverTLS(c, h.proxyCert[i], &log.SNI)
 		if err := tc.Handshake(); err != nil {
 			sc.Close()
 			return
